@@ -147,6 +147,7 @@ func exec1(t trie.Trie[int], op string) (res string) {
 }
 
 var hung = 0
+var replayMode = false
 
 // runCase executes one case under a watchdog and writes its trace line.
 func runCase(w *tr.W, impl string, ops []string) {
@@ -175,6 +176,9 @@ func runCase(w *tr.W, impl string, ops []string) {
 		close(done)
 	}()
 	deadline := 2*time.Second + 2*time.Duration(len(ops))*time.Millisecond
+	if replayMode { // shrinking replays many small cases: cut a hang quickly
+		deadline = 400*time.Millisecond + 100*time.Duration(len(ops))*time.Microsecond
+	}
 	timedOut := false
 	select {
 	case <-done:
@@ -631,6 +635,7 @@ func main() {
 	w := tr.NewW()
 	defer w.Flush()
 	if *replay != "" {
+		replayMode = true
 		cs, err := tr.ReadCases(*replay)
 		if err != nil {
 			fmt.Fprintln(os.Stderr, err)
